@@ -247,9 +247,10 @@ impl<A: ArenaX> Inst<A> {
 
   fn mem(&self) -> Value {
     let a = self.a();
-    if a.unify() {
+    let doff = a.data_offset();
+    // (the layout is told by the data offset, not by what unify() claims: the header sits in the buffer right below it)
+    if a.unify() && doff >= HEADER_SIZE + 8 {
       let mut m = a.memory().to_vec();
-      let doff = a.data_offset();
       for i in (doff - (HEADER_SIZE - HEADER_FIELDS))..doff.min(m.len()) {
         m[i] = 0;
       }
